@@ -310,8 +310,15 @@ def f2_trees(depth, cut_ok=True):
     return r
 
 
+EQ_NEW, EQ_PREV = ("leafeq", "new"), ("leafeq", "prev")
+
+
 def _f2_random_tree(rng, depth, cut_ok=True):
     if depth == 0 or rng.random() < 0.15:
+        if rng.random() < 0.12:
+            # a unification as a goal: V = 1 with a new variable (succeeds), or <previous leaf variable> = 2 (fails when that
+            # variable is bound to 1)
+            return rng.choice([EQ_NEW, EQ_PREV, EQ_PREV])
         return rng.choice(_F2_LEAVES_CUT if cut_ok else _F2_LEAVES_NOCUT)
     op = rng.choice([",", ",", ";", ";", "->", "\\+"])
     if op == "\\+":
@@ -332,6 +339,12 @@ def _f2_instantiate(tree, prefix):
             v = var("%s%d" % (prefix, len(vs) + 1))
             vs.append(v)
             return call(fun(t[1], v))
+        if tag == "leafeq":
+            if t[1] == "prev" and vs:
+                return eq(vs[-1], int_(2))
+            v = var("%s%d" % (prefix, len(vs) + 1))
+            vs.append(v)
+            return eq(v, int_(1))
         if tag in (",", ";", "->"):
             l = walk(t[1])
             return (tag, l, walk(t[2]))
@@ -362,6 +375,22 @@ def f2_case(ident, tree1, tree2=None):
     return Case("F2", ident, list(_F2_FACTS), queries, more=[(rules, True)], special=True)
 
 
+def f2_case_heads(ident, tree1, tree2, shape):
+    """clause selection through the HEAD rather than a constant first argument: heads made of variables only (one of them
+    repeated, or all distinct), bodies from the control trees, a later catch-all clause; queries with equal, different and
+    unbound arguments - a cut in the first clause commits only when its head really unified"""
+    b1, v1 = _f2_instantiate(tree1, "V")
+    b2, v2 = _f2_instantiate(tree2, "W") if tree2 is not None else (TRUE, [])
+    X, Y, Z = var("X"), var("Y"), var("Z")
+    h1 = {"xx": fun("t", X, X, Z), "xyx": fun("t", X, Y, X), "xyz": fun("t", X, Y, Z)}[shape]
+    rules = [(h1, conj(b1, eq(Z, atom("first")))), (fun("t", X, Y, Z), conj(b2, eq(Z, atom("second")))),
+             (fun("t", var("_"), var("_"), atom("third")), TRUE)]
+    P, Q, R = var("P"), var("Q"), var("R")
+    queries = [call(fun("t", int_(1), int_(1), R)), call(fun("t", int_(1), int_(2), R)), call(fun("t", P, Q, R)),
+               call(fun("t", int_(1), Q, R)), conj(call(fun("pick", P)), call(fun("t", P, int_(2), R)))]
+    return Case("F2", ident, list(_F2_FACTS), queries, more=[(rules, True)], special=True)
+
+
 def exhaustive_F2(max_depth=2):
     for i, tree in enumerate(f2_trees(max_depth, True)):
         yield f2_case("F2-ex%d-%d" % (max_depth, i), tree)
@@ -373,6 +402,9 @@ def gen_F2(seed, count, max_depth=3):
         d = rng.randint(1, max_depth)
         t1 = _f2_random_tree(rng, d)
         t2 = _f2_random_tree(rng, rng.randint(0, 2)) if rng.random() < 0.5 else None
+        if i % 8 == 5:
+            yield f2_case_heads("F2h-%d-%d" % (seed, i), t1, t2, rng.choice(["xx", "xyx", "xyz"]))
+            continue
         yield f2_case("F2-%d-%d" % (seed, i), t1, t2)
 
 
